@@ -17,6 +17,7 @@ import (
 	"github.com/dadrus/heimdall/verif/props/c15"
 	"github.com/dadrus/heimdall/verif/props/c16"
 	"github.com/dadrus/heimdall/verif/props/c18"
+	"github.com/dadrus/heimdall/verif/props/c19"
 	"github.com/dadrus/heimdall/verif/props/c20"
 )
 
@@ -39,6 +40,7 @@ func main() {
 		c15.Check(),
 		c16.Check(),
 		c18.Check(),
+		c19.Check(),
 		c20.Check(),
 	} {
 		checks[c.ID] = c
